@@ -9,7 +9,7 @@ import ast
 from .. import astutil as A
 from ..fa import FA
 from ..loader import AnalysisError
-from .cache_model import (CacheModel, self_attr, CACHE_CLASS, branch_filter, both, no_back_edges, every_path_through,
+from .cache_model import (CacheModel, self_attr, assign_pairs, CACHE_CLASS, branch_filter, both, no_back_edges, every_path_through,
                           at_most_once, bool_leaves, edge_implies, linear_terms, safe_expand, value_sources)
 
 
@@ -304,8 +304,7 @@ def check_accounting(ck, cm: CacheModel):
                         ck.ob(R, "%s::%s" % (q, A.head(n)), False, "an entry's recorded size is modified after construction", A.loc(fi, n))
     ce = ck.repo.cls("storage_base._CacheEntry").methods.get("__init__")
     ck.need(ce is not None, "_CacheEntry.__init__ not found")
-    stores = [s for s in A.all_stmts(ce.node) if isinstance(s, ast.Assign) and any(self_attr(t, "obj_size") for t in s.targets)
-              and isinstance(s.value, ast.Name) and s.value.id == "obj_size"]
+    stores = [s for s in A.all_stmts(ce.node) if any(self_attr(t, "obj_size") and isinstance(v, ast.Name) and v.id == "obj_size" for (t, v) in assign_pairs(s))]
     ck.ob(R, ce.qual + "::obj_size", bool(stores), "entry stores the size it was given" if stores else
           "_CacheEntry does not store its obj_size parameter", A.loc(ce, ce.node))
 
@@ -666,12 +665,13 @@ def check_estimates_bounded_below(ck, cm, R):
 
 def check_queue_unbounded(ck, cm, R):
     ini = FA(ck, cm.init)
-    for st in ini.stmts(ast.Assign):
-        if any(self_attr(t, cm.queue) for t in st.targets) and isinstance(st.value, ast.Call):
-            ok = not st.value.args and not st.value.keywords
+    for st in ini.stmts((ast.Assign, ast.AnnAssign)):
+        qv = [v for (t, v) in assign_pairs(st) if self_attr(t, cm.queue) and isinstance(v, ast.Call)]
+        if qv:
+            ok = not qv[0].args and not qv[0].keywords
             ck.ob(R, ini.key(None, "queue-unbounded"), ok, "the recency queue never drops keys on its own" if ok else
                   "the recency queue is constructed as `%s`: once full it silently drops the oldest key while its entry stays resident, so that entry "
-                  "can never be evicted and the budget is exceeded" % A.norm(st.value), ini.where(st))
+                  "can never be evicted and the budget is exceeded" % A.norm(qv[0]), ini.where(st))
 
 
 def _answers_presence(f2: FA, r) -> bool:
